@@ -32,11 +32,11 @@ type C13Scn struct {
 }
 
 type c13Unit struct {
-	id        string
-	kind      string
-	childPID  int
-	cancelled bool // a "cancelled" reply was received
-	released  bool // a "released" reply was received
+	id           string
+	kind         string
+	childPID     int
+	cancelled    bool // a "cancelled" reply was received
+	released     bool // a "released" reply was received
 	releaseAsked bool
 }
 
@@ -378,10 +378,10 @@ func checkStatusLog(logFile, dirPrefix string) *vx.Verdict {
 	}
 	defer f.Close()
 	type rec struct {
-		pid                int
-		newState           int
-		newSize            int64
-		line               string
+		pid      int
+		newState int
+		newSize  int64
+		line     string
 	}
 	hist := map[string][]rec{}
 	sc := bufio.NewScanner(f)
